@@ -1002,6 +1002,9 @@ def _msg(kind, k):
     if kind == "unknown":
         return [(b"getaddr", b""), (b"foobar", b"payload-%d" % k), (b"pong", (77 + k).to_bytes(8, "little")),
                 (b"mempool", b""), (b"sendheaders", b"")][k % 5]
+    if kind == "unknown-odd":           # legal but odd command names: EMPTY (12 NUL bytes), 12 characters, words the code uses
+        return [(b"", b"empty-name-%d" % k), (b"abcdefghijkl", b""), (b"payload", b"p%d" % k), (b"parse", b""), (b"_", b"u%d" % k),
+                (b"command", b""), (b"handle", b"h%d" % k), (b"msg", b""), (b"recv", b"r")][k % 9]
     raise KeyError(kind)
 
 
@@ -1162,6 +1165,16 @@ def gen_cases(rng, tier):
     for i, ks in enumerate(lsw):
         out.append(case("line-granularity-%d-peers" % len(ks), "linesweep", _progs([list(k) for k in ks]), 400 if T else 60, i,
                         timeout=300.0))
+    # --- odd but legal command names (empty name = 12 NUL bytes, a full 12-character name, words the code itself uses):
+    #     unknown commands like any other - queued once, in order, and the peer's later ping still answered ---
+    for i in range(9 if T else 3):
+        ks = [["unknown-odd"] * 3 + ["ping"], ["unknown-odd", "ping", "unknown-odd"]]
+        pr = _progs(ks)
+        # rotate so that every odd name is used within a few cases
+        pr = [[(_msg("unknown-odd", 9 * i + 3 * t + j) if c not in (b"ping",) else (c, p)) for j, (c, p) in enumerate(prog)]
+              for t, prog in enumerate(pr)]
+        out.append(case("odd-command-names", "sweep", pr, 10 ** 6 if T else 30, i, False))
+        out.append(case("odd-command-names", "run", pr, [t for _ in range(12) for t in (0, 1)], EAGER))
     stress = [(3, 500, 10, 3), (4, 350, 5, 2)]
     if T:
         stress += [(3, 800, 1, 4), (3, 500, 50, 4), (5, 400, 10, 4), (2, 1500, 10, 4), (6, 300, 2, 4), (3, 1000, 5, 4)]
